@@ -135,7 +135,16 @@ func runC11(c *Ctx) {
 		want := map[string]int64{"ErrNoCommonSecurity": 5017, "ErrNoCommonApplication": 5010, "": 5012}
 		got := map[string]int64{}
 		for _, ac := range answerCodes(errB) {
+			if prev, dup := got[ac.cause]; dup && prev != ac.code {
+				got[ac.cause] = -2 // conflicting codes for one cause
+				continue
+			}
 			got[ac.cause] = ac.code
+		}
+		for cause, code := range got {
+			if strings.HasPrefix(cause, "?") {
+				r.Fail("R2", fname(errB)+":result-code-other-condition", c.fpos(errB), fmt.Sprintf("result code %d is chosen under a condition other than the failure cause reported by the parser: a cause that does not apply can be answered", code))
+			}
 		}
 		var causes []string
 		for k := range want {
@@ -215,6 +224,22 @@ func runC11(c *Ctx) {
 			}
 		}
 		r.Check(good, "R4", key, c.pos(parse), "metadata = smpeer.FromCER(the CER object that was parsed)", "the stored metadata is not built from the CER that was just validated")
+		// and never on the rejection path (shared clause with C10 R3)
+		onReject := false
+		var at ssa.Instruction
+		for _, ci := range flow.CallInstrs(h) {
+			com := ci.Common()
+			if com.IsInvoke() && com.Method.Name() == "SetContext" {
+				if eb[ci.Block()] || pathFromErrEdge(h, parse, ci) != nil {
+					onReject, at = true, ci
+				}
+			}
+		}
+		if onReject {
+			r.Fail("R4", fname(h)+":no-metadata-on-rejection", c.pos(at), "the connection's context (peer metadata) is set on the path of a rejected CER: a peer whose capabilities exchange failed is treated as having completed it")
+		} else {
+			r.Ok("R4", fname(h)+":no-metadata-on-rejection", c.pos(parse), "SetContext is unreachable from the error edge of CER.Parse")
+		}
 		c.c11Apps(okB)
 	}
 
@@ -236,6 +261,55 @@ func answerCodes(g *ssa.Function) []ansCode {
 		}
 		code, ok := flow.ConstInt(ci.Common().Args[1])
 		if !ok {
+			// the code may be chosen by a package-local helper from the error: one constant per return,
+			// keyed by the Err* global its path compares a parameter with
+			if hc, isCall := flow.Peel(ci.Common().Args[1]).(*ssa.Call); isCall {
+				if hf := flow.StaticCallee(hc); hf != nil && hf.Blocks != nil {
+					flow.Instrs(hf, func(in ssa.Instruction) {
+						ret, isRet := in.(*ssa.Return)
+						if !isRet || len(ret.Results) != 1 {
+							return
+						}
+						k, isK := flow.ConstInt(ret.Results[0])
+						if !isK {
+							out = append(out, ansCode{"?", -1})
+							return
+						}
+						cause := ""
+						extra := false
+						for _, gd := range flow.Guards(ret) {
+							if ic, isC := gd.If.Cond.(*ssa.Call); isC {
+								if g := flow.StaticCallee(ic); g != nil && g.Pkg != nil && g.Pkg.Pkg.Path() == "errors" && g.Name() == "Is" && len(ic.Call.Args) == 2 {
+									if gl := loadedGlobal(ic.Call.Args[1]); gl != nil && strings.HasPrefix(gl.Name(), "Err") {
+										if gd.Taken {
+											cause = gl.Name()
+										}
+										continue
+									}
+								}
+							}
+							rl, ok := condRel(gd.If.Cond, gd.Taken)
+							if ok && rl.op == token.EQL {
+								if gl := loadedGlobal(rl.b); gl != nil && strings.HasPrefix(gl.Name(), "Err") {
+									cause = gl.Name()
+									continue
+								}
+							}
+							if ok && rl.op == token.NEQ {
+								if gl := loadedGlobal(rl.b); gl != nil && strings.HasPrefix(gl.Name(), "Err") {
+									continue // fell through an earlier case
+								}
+							}
+							extra = true
+						}
+						if extra && cause == "" && k != 5012 {
+							cause = "?guarded-by-something-else"
+						}
+						out = append(out, ansCode{cause, k})
+					})
+					continue
+				}
+			}
 			out = append(out, ansCode{"?", -1})
 			continue
 		}
@@ -289,22 +363,49 @@ func (c *Ctx) c11HostAddresses(b *ssa.Function) {
 				}
 			case *ssa.Extract:
 				if call, ok := x.Tuple.(*ssa.Call); ok {
-					if g := flow.StaticCallee(call); g != nil {
-						for _, a := range call.Call.Args {
-							if flow.TypeIs(a.Type(), pkgDiam, "Conn") {
-								srcs["local:"+g.Name()] = true
-							}
+					visit(call, d)
+				}
+			case *ssa.Call:
+				g := flow.StaticCallee(x)
+				if g == nil {
+					srcs["other:dynamic-call"] = true
+					return
+				}
+				// a package-local helper choosing between configured and local addresses: look inside
+				if pkgOf(g) != nil && pkgOf(g).Path() == pkgSM && g.Signature.Recv() != nil {
+					for _, rv := range flow.ReturnValues(g, 0) {
+						if !flow.IsNilConst(rv) {
+							visit(rv, d+1)
 						}
+					}
+					return
+				}
+				for _, a := range x.Call.Args {
+					if flow.TypeIs(a.Type(), pkgDiam, "Conn") {
+						srcs["local:"+g.Name()] = true
 					}
 				}
 			case *ssa.UnOp:
-				if tn, fld, _, ok := flow.FieldOf(x); ok && tn == "Settings" {
-					srcs["settings:"+fld] = true
+				if tn, fld, _, ok := flow.FieldOf(x); ok {
+					if tn == "Settings" {
+						srcs["settings:"+fld] = true
+					} else {
+						srcs["other:"+tn+"."+fld] = true
+					}
 				}
 			}
 		}
 		visit(ia.X, 0)
 		hasCfg, hasLocal := false, false
+		other := ""
+		for k := range srcs {
+			if strings.HasPrefix(k, "other:") {
+				hasCfg = false
+				other = fmt.Sprintf("Host-IP-Address values can come from %s (state kept across connections): a CEA on one connection can carry another connection's local address", strings.TrimPrefix(k, "other:"))
+				srcs = map[string]bool{}
+				break
+			}
+		}
 		for k := range srcs {
 			if strings.HasPrefix(k, "settings:HostIPAddress") {
 				hasCfg = true
@@ -317,6 +418,9 @@ func (c *Ctx) c11HostAddresses(b *ssa.Function) {
 			good = true
 		} else {
 			why = fmt.Sprintf("Host-IP-Address values come from %v, expected the configured addresses or else the connection's local addresses", keys(srcs))
+			if other != "" {
+				why = other
+			}
 		}
 	}
 	r.Check(good, "R3", key, c.fpos(b), "one Host-IP-Address per element of (configured addresses, else the connection's local addresses)", why)
